@@ -1,7 +1,7 @@
 """C01 — serialized values inhabit the generated TypeScript type."""
 import json, os, random
 import vlib, e2e, gen_corpus
-from gen_corpus import P, N, OPT, VEC
+from gen_corpus import P, N, OPT, VEC, PARAM
 from props import corpus
 
 
@@ -90,10 +90,12 @@ def fragment_programs(ctx):
         for k in range(rng.choice([3, 4, 5, 6])):
             name = f"F{i}_{k}"
             attrs = {}
+            gens = rng.choice([[], [], ["T"], ["T", "E"], ["V", "K"]])
+            gpool = pool + [PARAM(p) for p in gens]
             if rng.random() < 0.3: attrs["rename"] = f"Ren{i}_{k}"
             def fld(nm):
                 g.used_names = getattr(g, "used_names", set())
-                f = g.field(nm, g.ty(2, pool), allow=("rename", "skip") if nm is not None else ("skip",))
+                f = g.field(nm, g.ty(2, gpool), allow=("rename", "skip") if nm is not None else ("skip",))
                 f["attrs"].pop("docs", None)
                 return f
             if rng.random() < 0.5:
@@ -101,13 +103,13 @@ def fragment_programs(ctx):
                 it = {"kind": "struct", "name": name, "attrs": attrs, "generics": [], "shape": "named", "fields": []}
                 g.used_names = set()
                 if shape == "named":
-                    it["fields"] = [fld(nm) for nm in rng.sample(gen_corpus.FIELD_NAMES, rng.choice([1, 2, 3, 4]))]
+                    it["fields"] = [fld(nm) for nm in rng.sample([n for n in gen_corpus.FIELD_NAMES if n.replace("r#", "") not in ("tag", "$kind")], rng.choice([1, 2, 3, 4]))]
                     if rng.random() < 0.4: attrs["rename_all"] = rng.choice(RULES)
                     if rng.random() < 0.15: attrs["tag"] = rng.choice(["tag", "$kind"])
                 elif shape == "tuple":
                     it["shape"], it["fields"] = "tuple", [fld(None) for _ in range(rng.choice([2, 3]))]
                 elif shape == "newtype":
-                    it["shape"], it["fields"] = "tuple", [{"name": None, "ty": g.ty(2, pool), "attrs": {}}]
+                    it["shape"], it["fields"] = "tuple", [{"name": None, "ty": g.ty(2, gpool), "attrs": {}}]
                 elif shape == "unit":
                     it["shape"] = "unit"
                 elif shape == "empty_tuple":
@@ -125,21 +127,36 @@ def fragment_programs(ctx):
                     sh = rng.choice(["unit", "struct", "struct"] if repr_ == "internal" else ["unit", "newtype", "tuple", "struct"])
                     v = {"name": vn, "attrs": {}, "shape": "unit", "fields": []}
                     if sh == "newtype":
-                        v["shape"], v["fields"] = "tuple", [{"name": None, "ty": g.ty(2, pool), "attrs": {}}]
+                        v["shape"], v["fields"] = "tuple", [{"name": None, "ty": g.ty(2, gpool), "attrs": {}}]
                     elif sh == "tuple":
                         v["shape"], v["fields"] = "tuple", [fld(None) for _ in range(rng.choice([2, 3]))]
                     elif sh == "struct":
                         v["shape"] = "named"
-                        v["fields"] = [fld(nm) for nm in rng.sample([n for n in gen_corpus.FIELD_NAMES if n not in ("t", "c", "type")], rng.choice([1, 2, 3]))]
+                        v["fields"] = [fld(nm) for nm in rng.sample([n for n in gen_corpus.FIELD_NAMES if n.replace("r#", "") not in ("t", "c", "type", "tag", "$kind")], rng.choice([1, 2, 3]))]
                         if rng.random() < 0.3: v["attrs"]["rename_all"] = rng.choice(RULES)
                     if rng.random() < 0.15: v["attrs"]["rename"] = f"v{len(it['variants'])}-renamed"
                     it["variants"].append(v)
                 if repr_ not in ("untagged",) and rng.random() < 0.15 and it["variants"][-1]["shape"] != "unit":
                     it["variants"][-1]["attrs"]["untagged"] = True
+            # every type parameter must be used; instantiate generic items at closed types
+            used = json.dumps(it)
+            live = [p for p in gens if f'"n": "{p}"' in used]
+            it["generics"] = [{"name": p} for p in live]
             items.append(it)
-            pool.append(N(name))
+            if live:
+                closed = [t for t in pool if t["k"] != "named" or not t["args"] or True] or [P("u8")]
+                for _ in range(2):
+                    pool.append(N(name, *[rng.choice([P("u8"), P("String"), VEC(P("bool"))] + closed[:3]) for _ in live]))
+            else:
+                pool.append(N(name))
         imap = {x["name"]: x for x in items}
-        probes = [{"ty": N(x["name"]), "values": g.all_variant_values(N(x["name"]), imap)[:4]} for x in items]
+        insts = {}
+        for t in pool:
+            insts.setdefault(t["id"], []).append(t)
+        probes = []
+        for x in items:
+            for t in insts.get(x["name"], [])[:2]:
+                probes.append({"ty": t, "values": g.all_variant_values(t, imap)[:4]})
         progs.append({"items": items, "probes": probes})
     return progs
 
@@ -174,7 +191,7 @@ def tree_stream(ctx, c, qs, meta):
         for pi, (prog, R) in enumerate(zip(progs, real)):
             byname = {}
             for pr, r in zip(prog["probes"], R):
-                if pr["ty"]["k"] == "named" and not pr["ty"]["args"] and "ok" in r.get("decl", {}):
+                if pr["ty"]["k"] == "named" and "ok" in r.get("decl", {}):      # decl() does not depend on the instantiation
                     byname.setdefault(pr["ty"]["id"], r["decl"]["ok"])
             lines.append({"op": "tree_check", "items": prog["items"], "decls": [byname.get(it["name"], "") for it in prog["items"]]})
             back.append((tag, pi, prog))
